@@ -9,7 +9,7 @@ JOBS = str(os.cpu_count() or 8)
 
 ALLOWED_AXIOMS = set()  # the development is meant to be closed; standard-library axioms would be named here
 
-TRANSLATORS = ["gen_tokens.py", "gen_unicode.py", "gen_schemas.py", "gen_grammar.py", "gen_shared.py"]
+TRANSLATORS = ["gen_tokens.py", "gen_unicode.py", "gen_schemas.py", "gen_grammar.py", "gen_slotdocs.py", "gen_shared.py"]
 
 
 def env():
@@ -52,7 +52,7 @@ def coq_project():
     files = []
     for d in ("Lib", "Gen", "Model", "Spec", "Proofs", "Props", "Extract"):
         files += sorted(glob.glob(os.path.join(COQ, d, "*.v")))
-    txt = "-R . MF\n-arg -w -arg -notation-overridden,-deprecated-hint-without-locality,-deprecated-instance-without-locality\n" + "\n".join(os.path.relpath(f, COQ) for f in files) + "\n"
+    txt = "-R . MF\n-arg -no-glob\n-arg -w -arg -notation-overridden,-deprecated-hint-without-locality,-deprecated-instance-without-locality\n" + "\n".join(os.path.relpath(f, COQ) for f in files) + "\n"
     p = os.path.join(COQ, "_CoqProject")
     old = open(p).read() if os.path.exists(p) else None
     if old != txt or not os.path.exists(os.path.join(COQ, "Makefile")):
